@@ -135,7 +135,23 @@ static size_t p_hex(unsigned char** out) {
 }
 static cbor_item_t* p_item(void);
 static cbor_item_t* p_string(int text) {
-  unsigned char* d; p_eat('('); size_t n = p_hex(&d); p_eat(')');
+  unsigned char* d; p_eat('('); size_t n = p_hex(&d);
+  if (*P == '>') {
+    /* x(hex1>hex2): a string built with new_definite_* + set_handle(block, len1), whose handle is then set AGAIN to the same block with other
+       content and length (modified in place); denotes the string hex2 */
+    P++;
+    unsigned char* d2; size_t n2 = p_hex(&d2); p_eat(')');
+    extern _cbor_malloc_t _cbor_malloc;
+    size_t cap = (n > n2 ? n : n2); unsigned char* blk = _cbor_malloc(cap ? cap : 1);
+    cbor_item_t* r = text ? cbor_new_definite_string() : cbor_new_definite_bytestring();
+    if (!r || !blk) { perr = 2; free(d); free(d2); return r; }
+    if (n) memcpy(blk, d, n);
+    if (text) cbor_string_set_handle(r, blk, n); else cbor_bytestring_set_handle(r, blk, n);
+    if (n2) memcpy(blk, d2, n2);
+    if (text) cbor_string_set_handle(r, blk, n2); else cbor_bytestring_set_handle(r, blk, n2);
+    free(d); free(d2); return r;
+  }
+  p_eat(')');
   cbor_item_t* r = text ? cbor_build_stringn((const char*)d, n) : cbor_build_bytestring(d, n);
   free(d); return r;
 }
@@ -190,6 +206,12 @@ static cbor_item_t* p_item(void) {
         if (!cbor_array_push(r, x)) perr = 2;
         if (*P == '*') { P++; if (!cbor_array_push(r, x)) perr = 2; }   /* 'x*': the same item pushed twice (shared) */
         cbor_decref(&x);
+        if (*P == '>') {   /* 'old>new': the member just pushed is replaced in place (cbor_array_replace) */
+          P++; cbor_item_t* y = p_item();
+          if (!y) { perr = 1; break; }
+          if (!cbor_array_replace(r, cbor_array_size(r) - 1, y)) perr = 2;
+          cbor_decref(&y);
+        }
         if (*P == ',') P++;
       }
       p_eat(']'); return r;
@@ -216,6 +238,14 @@ static cbor_item_t* p_item(void) {
       cbor_item_t* x = p_item(); p_eat(')');
       if (!x) { perr = 1; return NULL; }
       r = cbor_build_tag(v, x); cbor_decref(&x); return r;
+    }
+    case 'R': {   /* R(n,t1,t2): a tag built around t1 and then re-pointed to t2 with cbor_tag_set_item; the reference to t1 the tag held is released by the client (documented rule) */
+      p_eat('('); uint64_t v = p_num(); p_eat(',');
+      cbor_item_t* x = p_item(); p_eat(','); cbor_item_t* y = p_item(); p_eat(')');
+      if (!x || !y) { perr = 1; return NULL; }
+      r = cbor_build_tag(v, x);
+      if (r) { cbor_tag_set_item(r, y); cbor_decref(&x); /* the tag's former reference */ }
+      cbor_decref(&x); cbor_decref(&y); return r;
     }
     case 'h': case 's': {
       p_eat('('); uint32_t b = (uint32_t)p_num(); p_eat(')');
